@@ -555,6 +555,19 @@ fn msm_rel<G: VariableBaseMSM>(cx: &Ctx<G>, t: &mut Tape<'_>, o: &mut Obs, lc: &
     let (sb, ss) = (&bases[..n], &scal[..n]);
     let got = no_panic("msm_chunks", || G::msm_chunks(&sb, &ss))?;
     check_eq(&got, &want, "msm_chunks", &ctx)?;
+    if lb > ls {
+        // a base stream longer than the scalar stream is accepted (the function asserts scalars <= bases) and
+        // "aligned" by discarding the leading lb - ls bases: scalar i goes with base lb - ls + i
+        let off = lb - ls;
+        let mut acc = BigUint::zero();
+        for i in 0..ls {
+            acc += &e.k[i] * &e.a[off + i];
+        }
+        let want_tail = (cx.mk_elem)(&(acc % &cx.r));
+        let got = no_panic("msm_chunks.longer-bases", || G::msm_chunks(&bases, &scal))?;
+        check_eq(&got, &want_tail, "msm_chunks.longer-bases", &ctx)?;
+        o.class("chunks-longer-bases");
+    }
     if let Some(f) = cx.cfg_msm {
         let got = no_panic("config.msm", || f(bases, scal))?;
         check_res(&got, &want, lb, ls, "config.msm", &ctx)?;
@@ -827,7 +840,7 @@ fn main() {
             "num-bigint arithmetic is correct (dot product mod r)",
             "the harness group Zr uses arkworks prime-field addition (C01's subject) as its group law",
             "toy-curve tables come from the textbook affine law of vh_core::curve; shipped-curve reference multiples use arkworks' projective add/double (C03's subject) in a naive double-and-add",
-            "bases are members of the prime-order subgroup (AffineRepr contract); msm_bigint is called with integers below r (what every caller in the library passes); msm_chunks is called with streams of equal length",
+            "bases are members of the prime-order subgroup (AffineRepr contract); msm_bigint is called with integers below r (what every caller in the library passes); msm_chunks is called with streams of equal length, and with a longer base stream, where the code's alignment (scalars go with the last |scalars| bases) is the reference",
         ],
         relations,
     })
